@@ -163,6 +163,12 @@ def run_config(sh, fa, case, cfg, scratch, tag):
         if fo.foreign:
             sh.violation("output-needs-more-than-write-flush", "writer touched %r on a non-seekable output" % (fo.foreign,), info)
             return None
+        # on a pipe or socket behind a buffer the file only exists once it has been flushed
+        events = [e[0] for e in fo.log if e[0] in ("write", "flush")]
+        if "write" in events and events[-1] != "flush":
+            sh.violation("output-not-flushed", "the writer returned with %d write call(s) after its last flush of the output" % (len(events) - 1 - max([i for i, e in enumerate(events) if e == "flush"], default=-1)), info)
+            return None
+        sh.count("writeonly_outputs_flushed_last")
         data = fo.getvalue()
     elif path:
         sh.count("realfile_io")
